@@ -1856,7 +1856,7 @@ def apply_renames(P, base):
     Returns {new key: old key}."""
     present = {f.key for f in P.fn_list if f.kind not in ('closure', 'promoted')}
     missing = [k for k in base if k not in present and base[k] is not None]
-    new = [f for f in P.fn_list if f.kind not in ('closure', 'promoted') and f.key not in base]
+    new = [f for f in P.fn_list if f.kind in ('fn', 'assocfn') and f.key not in base]   # (constants / statics are never a renamed function)
     if not missing or not new:
         return {}
     def parent(k):
